@@ -409,7 +409,11 @@ func (dest *destination) implicitWithdraw(logger *slog.Logger, newPath *Path) *P
 				slog.String("Path", path.String()))
 
 			found = i
-			newPath.localID = path.localID
+			// A soft reset submits the stored path itself again: it may be queued
+			// for peers, so do not write to it when there is nothing to change.
+			if newPath.localID != path.localID {
+				newPath.localID = path.localID
+			}
 			break
 		}
 	}
